@@ -32,7 +32,8 @@ import NakenVerif.Generated.SimTables
 namespace NakenVerif.Sim.M6502
 open NakenVerif.Sim NakenVerif.Generated
 
-abbrev W := BitVec 32
+/-- C `int` -/
+scoped notation "W" => BitVec 32
 
 structure State where
   a : W
